@@ -30,7 +30,12 @@ for P in sorted(os.listdir(src)):
             continue
         out = os.path.join(dst, sid)
         os.makedirs(out, exist_ok=True)
-        shutil.copy(f"{d}/patch.diff", f"{out}/patch.diff")
+        if os.path.exists(f"{d}/patch.rebased.diff"):
+            # the patch was written against an earlier commit of /repo and no longer applies: re-done by hand on the current HEAD
+            shutil.copy(f"{d}/patch.rebased.diff", f"{out}/patch.diff")
+            shutil.copy(f"{d}/patch.diff", f"{out}/patch.orig_base.diff")
+        else:
+            shutil.copy(f"{d}/patch.diff", f"{out}/patch.diff")
         shutil.copy(f"{d}/demo.py", f"{out}/demo.py")
         note = open(f"{d}/note.md").read() if os.path.exists(f"{d}/note.md") else ""
         if note:
